@@ -8,7 +8,7 @@ from ..ref import P, L, to32, le
 
 REQUIRED = ['S>=l', 'S+l', 'smallA:accept', 'smallA:reject', 'smallR', 'mixedA', 'cofactored-only', 'noncanon-R', 'noncanon-A',
             'badkey', 'honest', 'prehash', 'legacy:S-range', 'validationvectors', 'R-undecodable', 'malleable-derived', 'sk-wrapper',
-            'key-ctor:from_bytes', 'key-ctor:try_from-slice', 'key-ctor:bincode', 'key-ctor:json', 'is_weak:small-order', 'is_weak:not', 'key-bytes-kept']
+            'key-ctor:from_bytes', 'key-ctor:try_from-slice', 'key-ctor:bincode', 'key-ctor:json', 'is_weak:small-order', 'is_weak:not', 'key-bytes-kept', 'passthrough-digest']
 
 
 def okerr(x):
@@ -229,6 +229,36 @@ def weak_keys(ctx, n):
                 ctx.add('sig.vk_tryfrom', enc.hex(), expect=['ok', enc.hex()], cls=['key-bytes-kept', 'noncanon-A'])
 
 
+def passthrough_digest(ctx, n):
+    """hazmat::raw_verify is generic in the digest: with the pass-through 'digest' (first 64 bytes of R||A||M) the
+    challenge is k = (R||A as an integer) mod l, and the same acceptance rule must hold"""
+    rng = ctx.rng
+    hram = lambda Rb, Ab, m: le((Rb + Ab + m)[:64])
+    for _ in range(n):
+        a = rng.randrange(1, L)
+        A = vals.Pt(a, rng.choice([0, 0, 0, 1, 4]))
+        Ab = A.encoding()
+        r = rng.randrange(L)
+        Rb = ref.ed_compress(ref.base_mul(r))
+        msg = vals.rb(rng, rng.choice([0, 3, 70]))
+        k = hram(Rb, Ab, msg) % L
+        good = Rb + to32((r + k * a) % L)
+        cands = [good, Rb + to32((r + k * a + 1) % L), Rb + to32(((r + k * a) % L) + L)]
+        fl = bytearray(good)
+        fl[rng.randrange(32)] ^= 1
+        cands.append(bytes(fl))
+        for sg in cands:
+            if le(sg[32:]) >= 2**256:
+                continue
+            e = ref.ed_verify_predicate(Ab, msg, sg, hram=hram)
+            el = ref.ed_verify_predicate(Ab, msg, sg, hram=hram, legacy=True)
+            if e == el:
+                ctx.add('sig.rawverify_pt', Ab.hex(), hx(msg), sg.hex(), expect=[okerr(e)], cls='passthrough-digest')
+            else:
+                ctx.add('sig.rawverify_pt', Ab.hex(), hx(msg), sg.hex(), expect=[okerr(e)], cls='passthrough-digest', only=nonlegacy)
+                ctx.add('sig.rawverify_pt', Ab.hex(), hx(msg), sg.hex(), expect=[okerr(el)], cls='passthrough-digest', only=legacy)
+
+
 def validation_vectors(ctx, limit):
     from .. import build
     p = os.path.join(build.REPO, 'ed25519-dalek', 'VALIDATIONVECTORS')
@@ -248,6 +278,7 @@ def make(seed, size):
     validation_vectors(ctx, max(10, size // 2))
     sk_wrappers(ctx, max(3, size // 8))
     weak_keys(ctx, max(3, size // 8))
+    passthrough_digest(ctx, max(3, size // 8))
     return ctx
 
 
